@@ -145,7 +145,7 @@ impl LangInterpreter for French {
                 to_block = Excludable::UN;
                 b.put(b"70")
             }
-            "huitante" | "huitantiène" => {
+            "huitante" | "huitantième" => {
                 to_block = Excludable::UN | Excludable::DIX_SEIZE;
                 b.put(b"80")
             }
